@@ -108,7 +108,7 @@ func (c *Conn) query(ctx context.Context, query string, args []interface{}, pre 
 	if err != nil {
 		return nil, err
 	}
-	return &Rows{cols: out.cols, rows: out.rows, binary: binary}, nil
+	return &Rows{cols: out.cols, rows: out.rows, binary: binary, failAt: out.failAt, failErr: out.failErr}, nil
 }
 
 // connBinary: go-sql-driver uses the binary protocol whenever a statement has
@@ -365,10 +365,12 @@ func (s *Stmt) CheckNamedValue(nv *driver.NamedValue) error { return s.c.CheckNa
 
 // Rows is a fully materialised result set.
 type Rows struct {
-	cols   []colMeta
-	rows   [][]interface{}
-	pos    int
-	binary bool
+	cols    []colMeta
+	rows    [][]interface{}
+	pos     int
+	binary  bool
+	failAt  int
+	failErr error
 }
 
 var (
@@ -389,6 +391,9 @@ func (r *Rows) Columns() []string {
 func (r *Rows) Close() error { r.pos = len(r.rows); return nil }
 
 func (r *Rows) Next(dest []driver.Value) error {
+	if r.failAt > 0 && r.pos+1 >= r.failAt {
+		return r.failErr
+	}
 	if r.pos >= len(r.rows) {
 		return io.EOF
 	}
